@@ -12,6 +12,8 @@ pub enum C {
     OutDay(i32),
     Triple(i32, u32, u32),
     Pair(i32, i32),
+    /// a raw day number handed to the type's serde visitors as an integer of the given wire width (0 = i64, 1 = u64, 2 = i32, 3 = u32)
+    Wire(i64, u8),
 }
 impl Case for C {
     fn to_json(&self) -> Value {
@@ -20,6 +22,7 @@ impl Case for C {
             C::OutDay(n) => json!({"kind":"outday","n":n}),
             C::Triple(y, m, d) => json!({"kind":"triple","y":y,"m":m,"d":d}),
             C::Pair(a, b) => json!({"kind":"pair","a":a,"b":b}),
+            C::Wire(v, w) => json!({"kind":"wire-integer","v":v,"width":w}),
         }
     }
 }
@@ -48,6 +51,15 @@ pub fn check(st: &mut Stats, c: &C) {
             let got = d.extract();
             if got != exp {
                 st.fail("C01/extract/wrong-triple", format!("day {} extract {:?} expected {:?}", n, got, exp));
+            }
+            {
+                // the same triple through the field accessors of the DateTime trait
+                use sqldatetime::DateTime;
+                st.op(Op::D_accessors);
+                let acc = (d.year(), d.month(), d.day());
+                if acc != (Some(exp.0), Some(exp.1 as i32), Some(exp.2 as i32)) {
+                    st.fail("C01/accessors/wrong-triple", format!("day {} year()/month()/day() = {:?} expected {:?}", n, acc, exp));
+                }
             }
             st.op(Op::D_try_from_ymd);
             match Date::try_from_ymd(exp.0, exp.1, exp.2) {
@@ -155,6 +167,39 @@ pub fn check(st: &mut Stats, c: &C) {
                 }
             }
         }
+        C::Wire(v, w) => {
+            use serde::de::IntoDeserializer;
+            use serde::Deserialize;
+            type E = serde::de::value::Error;
+            st.op(Op::S_bin_de);
+            let r: Result<Date, E> = match w {
+                0 => Date::deserialize(IntoDeserializer::<E>::into_deserializer(v)),
+                1 => Date::deserialize(IntoDeserializer::<E>::into_deserializer(v as u64)),
+                2 => Date::deserialize(IntoDeserializer::<E>::into_deserializer(v as i32)),
+                _ => Date::deserialize(IntoDeserializer::<E>::into_deserializer(v as u32)),
+            };
+            // the number the payload denotes
+            let denoted: i128 = match w {
+                0 => v as i128,
+                1 => v as u64 as i128,
+                2 => v as i32 as i128,
+                _ => v as u32 as i128,
+            };
+            match r {
+                Ok(d) => {
+                    st.obs(Op::S_bin_de, &d);
+                    if d.days() as i128 != denoted || !(MIN_DAY as i128..=MAX_DAY as i128).contains(&denoted) {
+                        st.fail("C01/raw-day-number/wire-integer-accepted-as-another-day", format!("integer {} (width code {}) accepted as day {} {:?}", denoted, w, d.days(), d.extract()));
+                    }
+                }
+                Err(_) => {
+                    // the 32-bit signed form is the documented compact encoding: a real day number must be accepted there
+                    if w == 2 && (MIN_DAY as i128..=MAX_DAY as i128).contains(&denoted) {
+                        st.fail("C01/raw-day-number/i32-day-number-rejected", format!("integer {} rejected", denoted));
+                    }
+                }
+            }
+        }
         C::Pair(a, b) => {
             let (da, db) = match (Date::try_from_days(a), Date::try_from_days(b)) {
                 (Ok(x), Ok(y)) => (x, y),
@@ -228,6 +273,55 @@ pub fn run(ctx: &Ctx, st: &mut Stats) {
     if ctx.tier != Tier::San {
         st.mark_exhaustive("triples/grid", "year -1..=10001 + 8 extreme years x month 0..=14,u32::MAX x day 0..=33,u32::MAX");
     }
+    // years over the whole i32 range: a sweep with a stride below the width of the supported range, and random ones
+    let ystride = ctx.tier.pick(40_000_003, ctx.q(4_999, 1_999), 499);
+    ctx.par(st, "triples/years swept over the whole i32 range", true, 0, (1i64 << 32) / ystride, |st, i, _| {
+        let y = (i32::MIN as i64 + i * ystride) as i32;
+        let (m, d) = (1 + (i % 12) as u32, 1 + (i % 28) as u32);
+        st.eval(&C::Triple(y, m, d), check);
+        st.eval(&C::Triple(y, 2, 29), check);
+    });
+    let nry = ctx.tier.pick(500, 1_000_000, ctx.big(5_000_000, 60_000_000));
+    ctx.par(st, "triples/random years of any magnitude", false, 0, nry, |st, _, rng| {
+        let y = match rng.below(3) {
+            0 => rng.next() as i32,
+            1 => (rng.next() as i32) >> rng.below(20),
+            _ => rng.range_i64(-30_000, 40_000) as i32,
+        };
+        let (m, d) = (rng.range_i64(0, 13) as u32, rng.range_i64(0, 32) as u32);
+        st.eval_h(mix(y as u64, (m * 64 + d) as u64), &C::Triple(y, m, d), check);
+    });
+    // raw day numbers arriving as integers of other wire widths (self-describing binary formats)
+    let nw = ctx.tier.pick(300, 300_000, 3_000_000);
+    ctx.par(st, "raw day numbers as 64/32-bit signed/unsigned wire integers (low 32 bits a real day number)", false, 0, nw, |st, i, rng| {
+        let d = match rng.below(3) {
+            0 => rng.range_i64(MIN_DAY as i64, MAX_DAY as i64),
+            1 => *rng.pick(&[MIN_DAY as i64, MAX_DAY as i64, 0, -1, 1, MIN_DAY as i64 - 1, MAX_DAY as i64 + 1]),
+            _ => rng.next() as i32 as i64,
+        };
+        let k = match rng.below(4) {
+            0 => 0,
+            1 => *rng.pick(&[1i64, -1, 2, -2, 1 << 20, i32::MAX as i64, i32::MIN as i64]),
+            _ => rng.next() as i32 as i64,
+        };
+        let v = k.wrapping_shl(32).wrapping_add(d);
+        let w = (i % 4) as u8;
+        st.eval_h(mix(v as u64, w as u64), &C::Wire(v, w), check);
+    });
+    // history: the same oracles in orders an ascending sweep never produces (pure functions must not care)
+    let nh = ctx.tier.pick(200, 300_000, 3_000_000);
+    ctx.par(st, "history: day numbers at power-of-two distances (A, A+-2^k, A) and A,B,A", false, 0, nh, |st, i, rng| {
+        let a = rng.range_i64(MIN_DAY as i64, MAX_DAY as i64);
+        let b = if i % 2 == 0 { a + (if rng.chance(1, 2) { 1 } else { -1 }) * (1i64 << rng.below(22)) } else { rng.range_i64(MIN_DAY as i64, MAX_DAY as i64) };
+        if !(MIN_DAY as i64..=MAX_DAY as i64).contains(&b) {
+            return;
+        }
+        st.eval_hist(mix(a as u64, b as u64), vec![C::Day(a as i32), C::Day(b as i32), C::Day(a as i32)], check);
+    });
+    ctx.par(st, "history: all day numbers descending", true, 0, n_idx, |st, i, _| {
+        st.eval(&C::Day(MAX_DAY - (i * stride) as i32), check);
+    });
+    cold_threads(st, "history: first call on a fresh thread", vec![C::Day(0), C::Day(-1), C::Day(1), C::Day(MIN_DAY), C::Day(MAX_DAY), C::Day(11_016), C::Triple(1970, 1, 1), C::Triple(0, 1, 1), C::Triple(1, 1, 1), C::Triple(9999, 12, 31), C::Triple(1900, 2, 29), C::Pair(0, 0), C::Pair(-1, 0)], check);
     // ordering / hashing on random pairs (consecutive pairs are part of days/all-in-range)
     let npairs = ctx.tier.pick(2_000, 300_000, ctx.big(3_000_000, 40_000_000));
     ctx.par(st, "order/random-pairs", false, 0, npairs, |st, _, rng| {
@@ -247,6 +341,7 @@ pub fn replay(v: &Value, st: &mut Stats) -> bool {
         "outday" => C::OutDay(ji64(v, "n") as i32),
         "triple" => C::Triple(ji64(v, "y") as i32, ji64(v, "m") as u32, ji64(v, "d") as u32),
         "pair" => C::Pair(ji64(v, "a") as i32, ji64(v, "b") as i32),
+        "wire-integer" => C::Wire(ji64(v, "v"), ji64(v, "width") as u8),
         _ => return false,
     };
     st.eval(&c, check);
